@@ -394,7 +394,8 @@ DevOutcomes(dev, r, d, M) ==
               -> {[Succ(dr, M, dr.mv) EXCEPT !.c = FALSE]}
       [] dev = "DEV_gridshift_inv_outside_unchanged" -> {Untouched}
       [] dev \in {"DEV_deflection_null_ignored", "DEV_laea_equatorial_inverse_rejects"} -> {Failed(dr, M)}
-      [] dev = "DEV_laea_polar_inverse_no_disc" -> {Succ(dr, M, FALSE)}
+      \* counted although outside the disc (whatever it then delivers in the elements it writes)
+      [] dev = "DEV_laea_polar_inverse_no_disc" -> {[Succ(dr, M, FALSE) EXCEPT !.el = [e \in E |-> IF e \in dr.wr THEN "any" ELSE "same"]]}
       [] OTHER -> {}
 \* the outcomes with the deviations switched on
 DOutcomes(r, d, cls, pi, M) ==
@@ -472,19 +473,23 @@ Persist(dr, a) == \/ \E e \in Known(a) : Kept(dr, e)
                   \/ a.sn /\ Known(a) = {} /\ Unk(a) # {} /\ \A e \in Unk(a) : Kept(dr, e)
 AllAny == [e \in E |-> "any"]
 
-\* the deviation (if any) that applies to a step of a pipeline
-StepDeviation(rid, sd, dr, cls, a) ==
+\* the deviation (if any) that applies to a step of a pipeline (pi: index of the head's point, 0 elsewhere)
+StepDeviation(rid, sd, dr, cls, pi, a) ==
     IF (Known(a) \cup Unk(a)) \cap dr.rd # {} THEN ""
     ELSE IF rid \in {"cart", "cart_intl"} /\ cls = "in" /\ a.el[4] = "nan" THEN "DEV_cart_nan_epoch_uncounted"
+    ELSE IF rid = "cart_intl" /\ sd = "I" /\ cls = "in" /\ pi = 2 THEN "DEV_cart_inv_axis_uncounted"
     ELSE IF rid = "geodesic_reversible" /\ sd = "I" /\ cls = "in" THEN "DEV_geodesic_reversible_inv_uncounted"
     ELSE IF rid \in GridshiftNoNull /\ sd = "I" /\ cls = "out" THEN "DEV_gridshift_inv_outside_unchanged"
+    ELSE IF rid = "deflection_null" /\ cls = "nul" THEN "DEV_deflection_null_ignored"
+    ELSE IF rid = "laea_equatorial" /\ sd = "I" /\ cls = "in" THEN "DEV_laea_equatorial_inverse_rejects"
+    ELSE IF rid \in {"laea_north", "laea_south"} /\ sd = "I" /\ cls = "out" THEN "DEV_laea_polar_inverse_no_disc"
     ELSE ""
 
 \* one executed step on one abstract tuple: [cnt: yes | no | either | zero, a: the abstract tuple after the step,
 \* dev: the deviation that was applied (only with dv = TRUE)]
-StepOn(rid, sd, dr, supported, underflow, cls, a, dv) ==
+StepOn(rid, sd, dr, supported, underflow, cls, pi, a, dv) ==
     LET dirty == (Known(a) \cup Unk(a)) \cap dr.rd # {}
-        dev == IF dv /\ supported /\ dr.stk = "" THEN StepDeviation(rid, sd, dr, cls, a) ELSE ""
+        dev == IF dv /\ supported /\ dr.stk = "" THEN StepDeviation(rid, sd, dr, cls, pi, a) ELSE ""
         done == [el |-> [e \in E |-> IF e \in dr.wr THEN "val" ELSE a.el[e]], sn |-> Persist(dr, a)]
     IN
     IF ~supported THEN [cnt |-> "zero", a |-> a, dev |-> ""]
@@ -492,6 +497,9 @@ StepOn(rid, sd, dr, supported, underflow, cls, a, dv) ==
          IF underflow THEN [cnt |-> "no", a |-> [el |-> AllAny, sn |-> TRUE], dev |-> ""]
          ELSE [cnt |-> "yes", a |-> [el |-> [e \in E |-> IF e \in dr.wr THEN "any" ELSE a.el[e]], sn |-> Persist(dr, a)], dev |-> ""]
     ELSE IF dev = "DEV_gridshift_inv_outside_unchanged" THEN [cnt |-> "no", a |-> a, dev |-> dev]
+    ELSE IF dev \in {"DEV_deflection_null_ignored", "DEV_laea_equatorial_inverse_rejects"} THEN [cnt |-> "no", a |-> [el |-> AllAny, sn |-> TRUE], dev |-> dev]
+    ELSE IF dev = "DEV_laea_polar_inverse_no_disc"
+         THEN [cnt |-> "yes", a |-> [el |-> [e \in E |-> IF e \in dr.wr THEN "any" ELSE a.el[e]], sn |-> Persist(dr, a)], dev |-> dev]
     ELSE IF dev # "" THEN [cnt |-> "no", a |-> done, dev |-> dev]
     ELSE IF ~dirty /\ cls = "in"  THEN [cnt |-> "yes", a |-> done, dev |-> ""]
     ELSE IF ~dirty /\ cls = "nul" THEN [cnt |-> "yes", a |-> a, dev |-> ""]
@@ -526,13 +534,13 @@ Predictable(P, d) ==
     /\ \A k \in 1..Len(ex) : Underflows(P, d, k) => \A j \in 1..(k - 1) : ~Underflows(P, d, j)
     /\ \A k, j \in 1..Len(ex) : (j < k /\ Underflows(P, d, j)) => StepRec(P, d, ex[k]).stk = ""
 
-DefaultMembers == {[cls |-> "in", pt |-> PGeo, M |-> M] : M \in {{}, {1}, {3}, {4}}}
+DefaultMembers == {[cls |-> "in", pi |-> 1, pt |-> PGeo, M |-> M] : M \in {{}, {1}, {3}, {4}}}
 PipeMasks == {{}} \cup {{e} : e \in E}
 Members(P, d) ==
     LET h == HeadPos(P, d) IN
     IF h = 0 \/ HasZero(P, d) THEN DefaultMembers
     ELSE LET dr == StepRec(P, d, Exec(P, d)[h]) IN
-         UNION {{[cls |-> c, pt |-> PtsOf(dr, c)[i], M |-> M] : i \in 1..Len(PtsOf(dr, c)), M \in PipeMasks} : c \in {"in", "out", "edge", "nul"}}
+         UNION {{[cls |-> c, pi |-> i, pt |-> PtsOf(dr, c)[i], M |-> M] : i \in 1..Len(PtsOf(dr, c)), M \in PipeMasks} : c \in {"in", "out", "edge", "nul"}}
 
 Initial(m) == [el |-> [e \in E |-> IF e \in m.M THEN "nan" ELSE "same"], sn |-> m.M # {}]
 \* the abstract run of one member: sequence (one entry per executed step) of [cnt, a]
@@ -542,7 +550,7 @@ RunFrom(P, d, m, k, a, dv) ==
     IF k > Len(ex) THEN <<>>
     ELSE LET cls == IF k = HeadPos(P, d) THEN m.cls ELSE "in"
              r == StepOn(Rows[P[ex[k]].r].id, StepDir(P, d, ex[k]), StepRec(P, d, ex[k]), StepSupported(P, d, ex[k]),
-                         Underflows(P, d, k), cls, a, dv)
+                         Underflows(P, d, k), cls, (IF k = HeadPos(P, d) THEN m.pi ELSE 0), a, dv)
          IN <<r>> \o RunFrom(P, d, m, k + 1, r.a, dv)
 \* dv = FALSE: the reference; dv = TRUE: with the deviation switches on
 PipeRunD(P, d, m, dv) == RunFrom(P, d, m, 1, Initial(m), dv)
